@@ -155,6 +155,10 @@ pub(crate) fn format(src: &str, path: &Path) -> String {
 struct LineEdit {
     line_number: usize,
     new_indent: usize,
+    /// The column of the syntax node this edit was computed for. The
+    /// edit only applies when that node is the first thing on its
+    /// line, i.e. when its column is the line's indentation.
+    column: usize,
 }
 
 /// Represents a span replacement edit for fixing spacing within a line.
@@ -399,6 +403,7 @@ impl IndentationVisitor {
                     self.line_edits.push(LineEdit {
                         line_number: line_num,
                         new_indent: target_indent,
+                        column: current_indent,
                     });
                 }
 
@@ -418,6 +423,7 @@ impl IndentationVisitor {
                 self.line_edits.push(LineEdit {
                     line_number: close_line,
                     new_indent: target_close_indent,
+                    column: current_indent,
                 });
             }
 
@@ -460,6 +466,7 @@ impl Visitor for IndentationVisitor {
                 self.line_edits.push(LineEdit {
                     line_number: line_num,
                     new_indent: 0,
+                    column: current_indent,
                 });
             }
 
@@ -497,6 +504,7 @@ impl Visitor for IndentationVisitor {
                     self.line_edits.push(LineEdit {
                         line_number: line_num,
                         new_indent: target_indent,
+                        column: current_indent,
                     });
                 }
 
@@ -518,6 +526,7 @@ impl Visitor for IndentationVisitor {
                 self.line_edits.push(LineEdit {
                     line_number: close_line,
                     new_indent: target_indent,
+                    column: current_indent,
                 });
             }
 
@@ -550,6 +559,7 @@ impl Visitor for IndentationVisitor {
                         self.line_edits.push(LineEdit {
                             line_number: pattern_line,
                             new_indent: target_indent,
+                            column: current_indent,
                         });
                     }
 
@@ -574,6 +584,7 @@ impl Visitor for IndentationVisitor {
                 self.line_edits.push(LineEdit {
                     line_number: match_end_line,
                     new_indent: target_indent,
+                    column: expr.position.end_column.saturating_sub(1),
                 });
                 self.processed_lines.insert(match_end_line);
             }
@@ -739,6 +750,7 @@ fn collect_comment_edits(
                     line_edits.push(LineEdit {
                         line_number: line_num,
                         new_indent: target_indent,
+                        column: current_indent,
                     });
                 }
 
@@ -763,6 +775,7 @@ fn collect_comment_edits(
                 line_edits.push(LineEdit {
                     line_number: line_num,
                     new_indent: 0,
+                    column: current_indent,
                 });
             }
 
@@ -819,6 +832,17 @@ fn apply_indentation_edits(
         } else if let Some(edit) = edits_map.get(&line_num) {
             // Strip existing indentation and add correct amount
             let trimmed = line.trim_start();
+
+            // The edit was computed from the column of a node that
+            // has other code before it on this line: that column is
+            // not the line's indentation, so leave the line alone.
+            if !trimmed.is_empty() && edit.column != line.len() - trimmed.len() {
+                result.push_str(line);
+                if line_num < lines.len() - 1 {
+                    result.push('\n');
+                }
+                continue;
+            }
 
             // Empty line stays empty (preserves blank lines)
             if trimmed.is_empty() {
